@@ -116,25 +116,15 @@ def jointF : Nat → Tree AEv Quest (Leaf S) → Tree AEv Quest (Leaf T) → Opt
     | .leaf l, t => some (t.paths.map fun p => ⟨l.cfg, p.2.cfg, p.1, false⟩)
     | .emit a k, .leaf l => some ((Tree.emit a k).paths.map fun p => ⟨p.2.cfg, l.cfg, p.1, true⟩)
     | .ask q kt kf, .leaf l => some ((Tree.ask q kt kf).paths.map fun p => ⟨p.2.cfg, l.cfg, p.1, true⟩)
-    -- one side asks a question the other (after `collapse`) does not care about: whatever the answer, the
-    -- pair goes on with that branch against the same tree of the other side
-    | .emit _ _, .ask _ kt' kf' =>
-        match jointF fuel tA kt', jointF fuel tA kf' with
-        | some l1, some l2 => some (l1 ++ l2)
-        | _, _ => viaRaise
-    | .ask _ kt kf, .emit _ _ =>
-        match jointF fuel kt tB, jointF fuel kf tB with
-        | some l1, some l2 => some (l1 ++ l2)
-        | _, _ => viaRaise
+    | .emit _ _, .ask _ _ _ => viaRaise
+    | .ask _ _ _, .emit _ _ => viaRaise
 
 def retHaltS {S : Type} : Tree AEv Quest (Leaf S) := .emit (.ret "FAIL") (.leaf .halt)
 def retHaltT {T : Type} : Tree AEv Quest (Leaf T) := .emit (.ret "FAIL") (.leaf .halt)
 
-/-- One step against the reference semantics with the error slack understood. -/
-def stepCheckF (M : SM S AEv Quest) (N : SM T AEv Quest) (p : PS S T AEv Quest) (x : Nat) :
+/-- One step on the given pair of trees (see `stepCheckF`). -/
+def stepCheckTrees (p : PS S T AEv Quest) (tA : Tree AEv Quest (Leaf S)) (tB : Tree AEv Quest (Leaf T)) :
     Option (List (PS S T AEv Quest)) :=
-  let tA := collapse (M.tree p.a x)
-  let tB := collapse (N.tree p.b x)
   let fuel := tA.size + tB.size + p.lag.length + 4
   if p.aLeads then
     match syncMach p.lag tB with
@@ -150,6 +140,16 @@ def stepCheckF (M : SM S AEv Quest) (N : SM T AEv Quest) (p : PS S T AEv Quest) 
     match syncSpec fuel p.lag tA with
     | none => none
     | some tA' => jointF fuel tA' tB
+
+/-- One step against the reference semantics with the error slack understood: on the trees as they
+    are, and — when that does not go through — with questions whose outcomes do not matter dropped on
+    both sides (`collapse`; dropping them on one side only can hide a question the other side still
+    asks, so the plain trees are tried first). -/
+def stepCheckF (M : SM S AEv Quest) (N : SM T AEv Quest) (p : PS S T AEv Quest) (x : Nat) :
+    Option (List (PS S T AEv Quest)) :=
+  match stepCheckTrees p (M.tree p.a x) (N.tree p.b x) with
+  | some r => some r
+  | none => stepCheckTrees p (collapse (M.tree p.a x)) (collapse (N.tree p.b x))
 
 def certOKF (M : SM S AEv Quest) (N : SM T AEv Quest) (nsym : Nat) (V : List (PS S T AEv Quest)) : Bool :=
   V.contains (initPS M N) &&
